@@ -16,7 +16,7 @@ use std::collections::{BTreeMap, BTreeSet};
 use std::sync::atomic::Ordering;
 use std::sync::Arc;
 
-pub const COUNTERS: &[&str] = &["sibling_bases", "sibling_variants_square", "sibling_variants_side", "sibling_variants_rights", "sibling_variants_ep", "sibling_pairs_compared", "piece_square_keys_exercised", "collision_table_positions", "collision_table_hashes", "double_variants"];
+pub const COUNTERS: &[&str] = &["sibling_bases", "sibling_variants_square", "sibling_variants_side", "sibling_variants_rights", "sibling_variants_ep", "sibling_pairs_compared", "piece_square_keys_exercised", "collision_table_positions", "collision_table_hashes", "double_variants", "keys_observed", "key_dependencies_found"];
 
 pub struct C09 {
     /// get_hash() -> packed observable position
@@ -264,7 +264,286 @@ fn double_variant_sweep(run: &Arc<Run>, oracle: &C09, bases: &[RefPos]) {
     }
 }
 
-pub const RULE: &str = "(a) sibling sweep: for every base position (curated roots + a spread of 3-man and en-passant-family positions) all single-component variants that are valid positions — each square set to each of the 13 contents, the other side to move, all 16 castling-rights sets, all 9 en-passant states — grouped by observable position; all hashes within a sibling group must be pairwise different (XOR structure: this exercises every piece-square key that can legally occur, all castling and en-passant keys and the side key, and every pair inside a group). (b) collision table: every position of the standard universes goes into get_hash() -> observable position; two different positions under one hash is a collision. (c) for a few dense bases (quick 12, thorough 48) and six state-rich bases (all four rights, every file a possible en-passant file for either side on one placement) the base, EVERY single-component variant and EVERY valid position that differs from the base in two components (two squares; a square and side / rights / en-passant state; two of side / rights / en-passant state) also goes into that table, so that four-key relations k1^k2 = k3^k4 (separable or repeated key material) surface as collisions. distinct_nontrivial = sibling variants compared + 0 for table entries (table size reported separately)";
+// ------------------------------------------------------------------------------------------
+// (d) linear dependencies among few keys.  The keys the library uses are observed (hash with the man
+// ^ hash without, on three-man positions; en-passant keys on a two-pawn position).  Inside each
+// (colour, kind) table — the pawn tables extended by the en-passant keys of that colour — every
+// subset of up to 8 keys that XORs to zero is found by meet-in-the-middle over all subsets of up to 4
+// keys; over ALL piece keys together every dependency of up to 4 keys.  Random 64-bit keys have none
+// (expected number < 10^-9 per table).  Every dependency found is turned into two different valid
+// positions (all ways of dealing its keys to the two sides, kings and the capturing pawn added), and
+// the pair is reported only if their REAL hashes are equal.
+
+#[derive(Clone, Copy, PartialEq, Eq, Debug, PartialOrd, Ord)]
+enum KeyId {
+    Man(Col, Kind, Sq),
+    /// en-passant state on this file after a double push by this colour
+    Ep(Col, i8),
+}
+
+fn observed_keys() -> Vec<(KeyId, u64)> {
+    let h = |p: &RefPos| if p.is_valid() { from_scratch(p).ok().map(|b| b.get_hash()) } else { None };
+    let corners: [(Sq, Sq); 4] = [(sq(0, 0), sq(7, 7)), (sq(7, 0), sq(0, 7)), (sq(0, 7), sq(7, 0)), (sq(7, 7), sq(0, 0))];
+    let mut out = vec![];
+    for col in [Col::W, Col::B] {
+        for kind in [Kind::P, Kind::N, Kind::B, Kind::R, Kind::Q] {
+            for s in 0..64u8 {
+                for (wk, bk) in corners {
+                    if s == wk || s == bk {
+                        continue;
+                    }
+                    let mut b0 = RefPos::empty();
+                    b0.put(wk, Kind::K, Col::W);
+                    b0.put(bk, Kind::K, Col::B);
+                    b0.stm = col;
+                    let mut b1 = b0;
+                    b1.put(s, kind, col);
+                    if let (Some(x), Some(y)) = (h(&b0), h(&b1)) {
+                        out.push((KeyId::Man(col, kind, s), x ^ y));
+                        break;
+                    }
+                }
+            }
+        }
+        // en-passant keys: pusher `col`, pawn on its double-push rank, an enemy pawn beside it
+        for f in 0..8i8 {
+            let nf = if f < 7 { f + 1 } else { f - 1 };
+            let r = col.dp_rank();
+            for (wk, bk) in [(sq(0, 0), sq(7, 7)), (sq(7, 0), sq(0, 7))] {
+                let mut b0 = RefPos::empty();
+                b0.put(wk, Kind::K, Col::W);
+                b0.put(bk, Kind::K, Col::B);
+                b0.put(sq(f, r), Kind::P, col);
+                b0.put(sq(nf, r), Kind::P, col.flip());
+                b0.stm = col.flip();
+                let mut b1 = b0;
+                b1.dp = f;
+                if std::env::var("CV_DEBUG_PAIRS").is_ok() {
+                    eprintln!("ep key probe {} / {}: valid {} {} ({:?}); hashes {:?} {:?}", b0.fen(), b1.fen(), b0.is_valid(), b1.is_valid(), b1.invalid_reason(), h(&b0), h(&b1));
+                }
+                if let (Some(x), Some(y)) = (h(&b0), h(&b1)) {
+                    if x != y {
+                        out.push((KeyId::Ep(col, f), x ^ y));
+                    }
+                    break;
+                }
+            }
+        }
+    }
+    out
+}
+
+/// All XOR-dependencies of at most 2 * half keys inside `keys` (indices into it).
+fn dependencies(keys: &[u64], half: usize) -> Vec<Vec<usize>> {
+    let n = keys.len();
+    let mut subs: Vec<(u64, u128)> = vec![];
+    fn rec(keys: &[u64], start: usize, left: usize, x: u64, mask: u128, out: &mut Vec<(u64, u128)>) {
+        if mask != 0 {
+            out.push((x, mask));
+        }
+        if left == 0 {
+            return;
+        }
+        for i in start..keys.len() {
+            rec(keys, i + 1, left - 1, x ^ keys[i], mask | (1u128 << i), out);
+        }
+    }
+    assert!(n <= 128);
+    rec(keys, 0, half, 0, 0, &mut subs);
+    subs.sort_unstable();
+    let mut found: BTreeSet<u128> = BTreeSet::new();
+    let mut i = 0;
+    while i < subs.len() {
+        let mut j = i + 1;
+        while j < subs.len() && subs[j].0 == subs[i].0 {
+            j += 1;
+        }
+        if subs[i].0 == 0 {
+            for k in i..j {
+                found.insert(subs[k].1);
+            }
+        }
+        if j - i > 1 && j - i < 64 {
+            for a in i..j {
+                for b in (a + 1)..j {
+                    let d = subs[a].1 ^ subs[b].1;
+                    if d != 0 {
+                        found.insert(d);
+                    }
+                }
+            }
+        }
+        i = j;
+    }
+    // keep the minimal ones
+    let all: Vec<u128> = found.iter().copied().collect();
+    all.iter().filter(|d| !all.iter().any(|e| e != *d && (*e & **d) == *e)).map(|d| (0..n).filter(|i| d & (1u128 << i) != 0).collect()).collect()
+}
+
+fn realise(dep: &[KeyId]) -> Option<(RefPos, RefPos)> {
+    let n = dep.len();
+    let ep: Option<(Col, i8)> = dep.iter().find_map(|k| if let KeyId::Ep(c, f) = k { Some((*c, *f)) } else { None });
+    if dep.iter().filter(|k| matches!(k, KeyId::Ep(..))).count() > 1 {
+        return None;
+    }
+    let used: Vec<Sq> = dep.iter().filter_map(|k| if let KeyId::Man(_, _, s) = k { Some(*s) } else { None }).collect();
+    for part in 0..(1u32 << n) {
+        // the en-passant key, if any, goes to side A; mirror-image partitions are skipped
+        if part & 1 == 0 {
+            continue;
+        }
+        let (mut a, mut b) = (RefPos::empty(), RefPos::empty());
+        let mut ok = true;
+        let mut a_has_ep = false;
+        for (i, k) in dep.iter().enumerate() {
+            let to_a = part & (1 << i) != 0;
+            match k {
+                KeyId::Man(c, kind, s) => {
+                    let t = if to_a { &mut a } else { &mut b };
+                    if t.bd[*s as usize] != 0 {
+                        ok = false;
+                        break;
+                    }
+                    t.put(*s, *kind, *c);
+                }
+                KeyId::Ep(..) => {
+                    if !to_a {
+                        ok = false;
+                        break;
+                    }
+                    a_has_ep = true;
+                }
+            }
+        }
+        if !ok || a == b {
+            continue;
+        }
+        // common extras: the capturing pawn (and the pushed pawn unless it is part of the dependency), kings
+        let mut extras: Vec<Vec<(Sq, Kind, Col)>> = vec![vec![]];
+        let mut stms = vec![Col::W, Col::B];
+        if let Some((pc, f)) = ep {
+            if !a_has_ep {
+                continue;
+            }
+            let r = pc.dp_rank();
+            extras.clear();
+            for nf in [f - 1, f + 1] {
+                if (0..8).contains(&nf) {
+                    let mut e = vec![(sq(nf, r), Kind::P, pc.flip())];
+                    if !used.contains(&sq(f, r)) {
+                        e.push((sq(f, r), Kind::P, pc));
+                    }
+                    extras.push(e);
+                }
+            }
+            stms = vec![pc.flip()];
+        }
+        for ex in extras.iter() {
+            for (wk, bk) in [(sq(0, 0), sq(7, 7)), (sq(7, 0), sq(0, 7)), (sq(0, 7), sq(7, 0)), (sq(7, 7), sq(0, 0)), (sq(6, 0), sq(1, 7)), (sq(1, 0), sq(6, 7)), (sq(0, 2), sq(7, 5)), (sq(7, 2), sq(0, 5))] {
+                for stm in stms.iter() {
+                    let (mut pa, mut pb) = (a, b);
+                    let mut good = true;
+                    for (s, k, c) in ex.iter().copied().chain([(wk, Kind::K, Col::W), (bk, Kind::K, Col::B)]) {
+                        if pa.bd[s as usize] != 0 || pb.bd[s as usize] != 0 {
+                            good = false;
+                            break;
+                        }
+                        pa.put(s, k, c);
+                        pb.put(s, k, c);
+                    }
+                    if !good {
+                        continue;
+                    }
+                    pa.stm = *stm;
+                    pb.stm = *stm;
+                    if let Some((_, f)) = ep {
+                        pa.dp = f;
+                    }
+                    if pa.is_valid() && pb.is_valid() {
+                        if let (Ok(x), Ok(y)) = (from_scratch(&pa), from_scratch(&pb)) {
+                            if observe(&x) != observe(&y) && x.get_hash() == y.get_hash() {
+                                return Some((pa, pb));
+                            }
+                        }
+                    }
+                }
+            }
+        }
+    }
+    None
+}
+
+fn key_dependency_sweep(run: &Arc<Run>) {
+    use rayon::prelude::*;
+    let keys = match guard::lib(observed_keys) {
+        Ok(k) => k,
+        Err(e) => {
+            run.report(Violation::new("C09", "panic", "get_hash panicked on a three-man position", e, json!({"kind": "siblings", "base": "8/8/8/8/8/8/8/K6k w - - 0 1"})));
+            return;
+        }
+    };
+    run.add("keys_observed", keys.len() as u64);
+    // groups: one per (colour, kind) table; pawn tables with that colour's en-passant keys
+    let mut groups: Vec<Vec<usize>> = vec![];
+    for col in [Col::W, Col::B] {
+        for kind in [Kind::P, Kind::N, Kind::B, Kind::R, Kind::Q] {
+            groups.push((0..keys.len()).filter(|i| match keys[*i].0 { KeyId::Man(c, k, _) => c == col && k == kind, KeyId::Ep(c, _) => kind == Kind::P && c == col }).collect());
+        }
+    }
+    let mut deps: Vec<Vec<KeyId>> = groups
+        .par_iter()
+        .flat_map_iter(|g| {
+            let ks: Vec<u64> = g.iter().map(|i| keys[*i].1).collect();
+            dependencies(&ks, 4).into_iter().map(|d| d.into_iter().map(|j| keys[g[j]].0).collect::<Vec<KeyId>>()).collect::<Vec<_>>()
+        })
+        .collect();
+    // all keys together: dependencies of up to 4 keys (pairs of pairs); 128-key windows are not enough here,
+    // so pairs are sorted directly
+    {
+        let mut pairs: Vec<(u64, u32, u32)> = vec![];
+        for i in 0..keys.len() {
+            pairs.push((keys[i].1, i as u32, u32::MAX));
+            for j in (i + 1)..keys.len() {
+                pairs.push((keys[i].1 ^ keys[j].1, i as u32, j as u32));
+            }
+        }
+        pairs.par_sort_unstable();
+        for w in pairs.windows(2) {
+            if w[0].0 == w[1].0 {
+                let mut d: Vec<u32> = vec![w[0].1, w[0].2, w[1].1, w[1].2].into_iter().filter(|x| *x != u32::MAX).collect();
+                d.sort();
+                // symmetric difference
+                let mut dd = vec![];
+                for x in d.iter() {
+                    if d.iter().filter(|y| *y == x).count() == 1 {
+                        dd.push(*x);
+                    }
+                }
+                if !dd.is_empty() {
+                    deps.push(dd.into_iter().map(|i| keys[i as usize].0).collect());
+                }
+            }
+        }
+    }
+    deps.sort();
+    deps.dedup();
+    run.add("key_dependencies_found", deps.len() as u64);
+    let mut unrealised = 0u64;
+    for d in deps.iter().take(200) {
+        match realise(d) {
+            Some((a, b)) => {
+                run.report(Violation::new("C09", "collision", "", format!("the keys {:?} XOR to zero; the different positions {} and {} therefore share one hash", d, a.fen(), b.fen()), json!({"kind": "collision", "a": a.fen(), "b": b.fen()})));
+                return;
+            }
+            None => unrealised += 1,
+        }
+    }
+    if unrealised > 0 {
+        run.note("key_dependencies_without_a_valid_position_pair", json!(deps.iter().take(20).map(|d| format!("{:?}", d)).collect::<Vec<_>>()));
+    }
+}
+
+pub const RULE: &str = "(a) sibling sweep: for every base position (curated roots + a spread of 3-man and en-passant-family positions) all single-component variants that are valid positions — each square set to each of the 13 contents, the other side to move, all 16 castling-rights sets, all 9 en-passant states — grouped by observable position; all hashes within a sibling group must be pairwise different (XOR structure: this exercises every piece-square key that can legally occur, all castling and en-passant keys and the side key, and every pair inside a group). (b) collision table: every position of the standard universes goes into get_hash() -> observable position; two different positions under one hash is a collision. (c) for a few dense bases (quick 12, thorough 48) and six state-rich bases (all four rights, every file a possible en-passant file for either side on one placement) the base, EVERY single-component variant and EVERY valid position that differs from the base in two components (two squares; a square and side / rights / en-passant state; two of side / rights / en-passant state) also goes into that table, so that four-key relations k1^k2 = k3^k4 (separable or repeated key material) surface as collisions. (d) linear dependencies: the ~650 piece-square and en-passant keys are observed on the library (hash with ^ hash without); inside every (colour, kind) table — pawn tables with that colour's en-passant keys — EVERY subset of up to 8 keys that XORs to zero, and over all keys together every dependency of up to 4 keys, is found by meet-in-the-middle, turned into two different valid positions (all ways of dealing the keys to the two sides) and reported if their real hashes are equal. distinct_nontrivial = sibling variants compared + 0 for table entries (table size reported separately)";
 
 pub fn run(tier: Tier) -> i32 {
     let run = Arc::new(Run::new("C09", tier, COUNTERS));
@@ -319,6 +598,9 @@ pub fn run(tier: Tier) -> i32 {
         b2.extend(dense.iter().step_by((dense.len() / n2).max(1)).take(n2).copied());
         double_variant_sweep(&run, &oracle, &b2);
         run.note("double_variant_bases", json!(b2.iter().map(|p| p.fen()).collect::<Vec<_>>()));
+    }
+    if !run.has_violation() {
+        key_dependency_sweep(&run);
     }
     if !run.has_violation() {
         run_plan(&run, &oracle, &standard_plan(tier, 1));
